@@ -359,7 +359,10 @@ def check_history(case, tape, trace):
                 else:
                     if abs(gv - stt["last"]) > 1e-3 * max(1.0, abs(stt["last"])):
                         fails.append(("get_last_frequency", stt["last"], got))
-        if budget is not None and sum(delays) > budget + len(delays) + 1e-6:
+        if budget is not None and name == "sweep" and sum(delays) > budget + 1e-6:
+            # "without exceeding the given duration": whole-millisecond delays may only round down
+            fails.append(("sweep-exceeds-duration", f"total delay <= {budget} ms", f"{sum(delays)} ms in {delays[:6]}"))
+        elif budget is not None and sum(delays) > budget + len(delays) + 1e-6:
             fails.append((f"{name}-not-bounded", f"total delay <= {budget} ms (+1 ms per delay)", f"{sum(delays)} ms in {delays[:4]}"))
         if name == "stop" or op.get("then_stop"):
             # stop() - alone or directly after a timed call, with no statement in between - silences whatever the pin was doing before
